@@ -3,7 +3,7 @@
    every syntax error carries the recorded start of a token, a position inside the text.
    That the Go code itself has no panic / hang is exhibited by the harness only (partial by nature). *)
 From Coq Require Import NArith ZArith List.
-From Acme.C08 Require Import DbcAst Chars DbcLex DbcParse ProofsLex ProofsPos ProofsTotal.
+From Acme.C08 Require Import DbcAst Chars DbcLex DbcParse ProofsLex ProofsPos ProofsTotal ProofsErrPos.
 From Acme.C09 Require Import ImportSkeleton ImportProofs.
 Import ListNotations.
 Local Open Scope N_scope.
@@ -43,6 +43,30 @@ Theorem error_position_spec : forall ud prs hex text l c,
   (exists raw t, lex ud text = Some raw /\ In t raw /\ (rt_line t, rt_col t) = (l, c)).
 Proof. exact ProofsPos.error_position_spec. Qed.
 Print Assumptions error_position_spec.
+
+(* a syntax error is raised with the number of tokens left, the rejected token first; that number
+   never exceeds the tokens given (per parser: *_eb, 40 lemmas) *)
+Theorem error_index_in_range : forall prs hex fuel fl ts n,
+  parse_loop prs hex fuel fl ts = RSyntax n -> (n <= length ts)%nat.
+Proof. exact ProofsErrPos.parse_loop_eb. Qed.
+Print Assumptions error_index_in_range.
+
+(* error_position_offending: the reported position is the recorded start of the FIRST token the
+   parser had not consumed when it rejected (the head of the remaining tokens: everything before
+   it was consumed by the sections already parsed), and the end-of-input position exactly when all
+   tokens had been consumed *)
+Theorem error_position_offending : forall ud prs hex text l c,
+  parse ud prs hex text = OSyntax l c ->
+  exists raw consumed remaining,
+    lex ud text = Some raw /\ pfilter raw = consumed ++ remaining /\
+    parse_loop prs hex (S (length (map strip (pfilter raw)))) {| fl_ver := false; fl_ns := false; fl_bu := false |}
+               (map strip (pfilter raw)) = RSyntax (length remaining) /\
+    (l, c) = match remaining with
+             | t :: _ => (rt_line t, rt_col t)
+             | [] => match last_opt (pfilter raw) with Some t => (rt_line t, rt_col t) | None => (1, 0) end
+             end.
+Proof. exact ProofsErrPos.error_position_offending. Qed.
+Print Assumptions error_position_offending.
 
 (* ... which in numbers means: 1 <= line <= 1 + newlines of the text, col <= 5 per character *)
 Theorem error_position_bounds : forall text l c, valid_pos text (l, c) ->
